@@ -12,7 +12,7 @@ from vf import common, irsem, exprgen, gnuref
 PROPERTY = 'C07'
 RULE = ('(a) IR-level store/load histories through eval_instr/eval_expr: stores of widths 8/16/32 at offsets 0..7 from a constant base, a symbolic base and a '
         'machine register base (init_esp), then a load of width 8/16/32 at offset 0..7: exhaustive for 1 store + 1 load (3 bases x 576), exhaustive for 2 stores '
-        '+ 1 load in the thorough tier (a deterministic eighth in quick), seeded random for 3..8 stores with interleaved loads; (b) ISA-level straight-line '
+        '+ 1 load in the thorough tier (a deterministic eighth in quick), seeded random for 3..8 stores with interleaved loads; stored values are fresh symbols, constants (2 stores + 1 load again with constant values) and contiguous slices of one identifier stored at adjacent addresses followed by a wide load and a second load; (b) ISA-level straight-line '
         'sequences of length 1..12 over mov/add/sub/xor/and/or/inc/dec/neg/not/lea/push/pop/xchg/xadd/shl/shr/movzx with register, immediate and memory '
         'operands whose addresses fall in an 8-byte window, assembled by GNU as, emulated with emul_lines on x86_machine(); (c) rep movs/stos/lods and '
         'repe/repne cmps/scas with concrete ecx in {0,1,2,5} and both directions. After each history every register and every (offset 0..11, width 8/16/32) '
@@ -117,8 +117,14 @@ def run_ir_history(sh, kind, ops, tag, origin):
     nontriv = False
     for idx, op in enumerate(ops):
         if op[0] == 'st':
-            _, off, w = op
-            v = ex.ExprId('v%d_%d' % (idx, w), w)
+            off, w = op[1], op[2]
+            vk = op[3] if len(op) > 3 else 'sym'
+            if vk == 'sym':
+                v = ex.ExprId('v%d_%d' % (idx, w), w)
+            elif vk == 'const':
+                v = exprgen.Int((0x9c5a3311 * (idx + 1) + 0x77) & irsem.mask(w), w)
+            else:       # ('slice', bit): a slice of one shared 32-bit identifier (what 'mov [p], al ; mov [p+1], ah' stores)
+                v = ex.ExprSlice(ex.ExprId('R32', 32), vk[1], vk[1] + w)
             try:
                 with common.alarm_guard(120), budget():
                     m.eval_instr([ex.ExprAff(ex.ExprMem(addr(kind, off), w), v)])
@@ -134,10 +140,10 @@ def run_ir_history(sh, kind, ops, tag, origin):
                 return
             for env, c in zip(envs, concrete):
                 a = irsem.evaluate(addr(kind, off), env)
-                c.store(a, w // 8, env.id_value(v.name, w))
+                c.store(a, w // 8, irsem.evaluate(v, env))
             stores.append((off, w))
         else:
-            _, off, w = op
+            off, w = op[1], op[2]
             rels = [relation(off, w // 8, so, sw // 8) for so, sw in stores]
             over = [r for r in rels if r != 'disjoint']
             if any(r != 'equal' for r in over):
@@ -371,15 +377,64 @@ def emulate_and_compare(sh, lines, blobs, tag, origin, rep=False):
                     except (irsem.Undefined, irsem.Uninterpreted):
                         continue
                     except irsem.IllFormed as e:
-                        sh.violation('isa/ill-formed-readback/%s' % mech_class(lines), 'read-back @%d[init_%s%+d] = %s after %s: %r' % (w, basereg, o, rb, '; '.join(lines), e), wit)
+                        sh.violation('isa/ill-formed-readback/%s' % mech_class(lines), 'read-back @%d[init_%s%+d] = %s after %s: %r' % (w, basereg, o, rb, '; '.join(lines), e),
+                                     dict(wit, readback=[basereg, o, w]))
                         return
                     want = c.load((env.id_value(binit.name, 32) + o) & 0xffffffff, w // 8)
                     if got != want:
                         sh.violation('isa/memory-value/%s' % mech_class(lines), 'after %s: @%d[init_%s%+d] = %s evaluates to 0x%x, sequential execution gives 0x%x' % (
-                            '; '.join(lines), w, basereg, o, str(rb)[:200], got, want), wit)
+                            '; '.join(lines), w, basereg, o, str(rb)[:200], got, want), dict(wit, readback=[basereg, o, w]))
                         return
     if len(sh.samples) < 3:
         sh.sample({'lines': lines})
+
+
+KNOWN_BAD_RELATIONS = ('read-inside', 'read-is-suffix', 'read-straddles-end', 'read-straddles-start', 'read-covers-write-inside')
+
+
+def esi_accesses(lines):
+    """(offset, nbytes) of every d(%esi) operand of a generated AT&T line, in program order."""
+    import re
+    out = []
+    for l in lines:
+        mn = l.split()[0]
+        for m in re.finditer(r'(-?\d*)\(%esi\)', l):
+            if mn.startswith('lea'):
+                continue
+            w = {'b': 1, 'w': 2, 'l': 4}.get(mn[-1], 4)
+            if mn.startswith('movz'):
+                w = {'b': 1, 'w': 2}[mn[4]]
+            out.append((int(m.group(1) or 0), w))
+    return out
+
+
+def esp_accesses(lines):
+    """(offset from init_esp, nbytes) of the stack accesses of push/pop lines, in program order."""
+    out = []
+    off = 0
+    for l in lines:
+        mn = l.split()[0]
+        if mn.startswith('push'):
+            off -= 4
+            out.append((off, 4))
+        elif mn.startswith('pop'):
+            out.append((off, 4))
+            off += 4
+    return out
+
+
+def has_known_bad_overlap(lines, readback=None):
+    """Does the sequence (plus the failing read-back) contain an access that stands in one of the relations to an earlier
+    access for which the IR-level histories of part (a) already show wrong read-backs on the unchanged tree?"""
+    for base, acc in (('esi', esi_accesses(lines)), ('esp', esp_accesses(lines))):
+        later = list(enumerate(acc))
+        if readback is not None and readback[0] == base:
+            later.append((len(acc), (readback[1], readback[2] // 8)))
+        for i, (o, n) in later:
+            for (po, pn) in acc[:i]:
+                if relation(o, n, po, pn) in KNOWN_BAD_RELATIONS:
+                    return True
+    return False
 
 
 def mech_class(lines):
@@ -445,9 +500,10 @@ def isa_case(sh, lines, tag, origin, rep=False):
         emulate_and_compare(t2, small, [a[0] for a in asm2], tag, origin, rep)
         v = (t2.violations or t.violations)[0]
         kind = v['key'].split('/')[1]
-        if origin == 'isa-alias':
+        if origin == 'isa-alias' and has_known_bad_overlap(small, (v.get('witness') or {}).get('readback')):
             # partially overlapping accesses: one mechanism (the overlap logic of eval_ExprMem/eval_instr); the
-            # mechanisms themselves are keyed precisely by the IR-level histories of part (a)
+            # mechanisms themselves are keyed precisely by the IR-level histories of part (a). Only sequences that
+            # contain one of the access relations known to be mishandled are attributed to it.
             key = 'isa-alias/state-differs-after-partially-overlapping-accesses'
         else:
             key = '%s/%s/%s' % (origin, kind, mech_class(small))
@@ -478,6 +534,7 @@ def shards(tier, seed):
             out.append(('ir21', kind, part, n2, tier))
         for i in range(2 if tier == 'quick' else 24):
             out.append(('irrand', kind, i))
+        out.append(('irvalues', kind))
     for i in range(24 if tier == 'quick' else 400):
         out.append(('isa', i))
         out.append(('isa-noalias', i))
@@ -509,12 +566,37 @@ def run_shard(shard, tier, seed):
                     run_ir_history(sh, bk, [('st', s1o, s1w), ('st', s2o, s2w), ('ld', lo, lw)], ('ir21', k, lo, lw), 'ir2+1')
         if tier == 'thorough':
             sh.extra['exhaustive'] = ['2 stores + 1 load, base %s, part %d/%d' % (bk, part, nparts)]
+    elif kind == 'irvalues':
+        bk = shard[1]
+        # (i) constant stored values: 2 stores + 1 load (a deterministic part in quick, everything in thorough)
+        k = 0
+        for (s1o, s1w) in acc:
+            for (s2o, s2w) in acc:
+                k += 1
+                if tier == 'quick' and k % 16 != 3:
+                    continue
+                for (lo, lw) in acc:
+                    run_ir_history(sh, bk, [('st', s1o, s1w, 'const'), ('st', s2o, s2w, 'const' if k % 2 else 'sym'), ('ld', lo, lw)], ('irc', k, lo, lw), 'ir2+1const')
+        # (ii) adjacent stores of contiguous slices of one identifier, a wide load over them, then a second load: the first
+        # load must not disturb the state
+        for (wa, wb) in ((8, 8), (8, 16), (16, 16), (16, 8)):
+            for o1 in (0, 1, 2):
+                for swap in (False, True):
+                    o2 = o1 + wa // 8
+                    sts = [('st', o1, wa, ('slice', 0)), ('st', o2, wb, ('slice', wa))]
+                    if swap:
+                        sts.reverse()
+                    for wide in (16, 32):
+                        for (lo, lw) in acc:
+                            if lo > o2 + 3:
+                                continue
+                            run_ir_history(sh, bk, sts + [('ld', o1, wide), ('ld', lo, lw)], ('irs', wa, wb, o1, swap, wide, lo, lw), 'ir2+2slices')
     elif kind == 'irrand':
         rng = common.rng_for(seed, 'C07ir', shard[1], shard[2])
         for i in range(60):
             ops = []
             for _ in range(rng.randint(3, 8)):
-                ops.append(('st',) + rng.choice(acc))
+                ops.append(('st',) + rng.choice(acc) + (rng.choice(('sym', 'sym', 'const')),))
                 if rng.random() < 0.4:
                     ops.append(('ld',) + rng.choice(acc))
             ops.append(('ld',) + rng.choice(acc))
